@@ -323,7 +323,21 @@ def main(argv):
     for u in undecided:
         print("UNDECIDED: property=%s %s" % (prop, u.replace("\n", "\n    ")))
 
-    write_evidence(prop, spec, args.tier, seed, vo, ko, violations, known_hits, undecided, time.time() - t0)
+    selftest = None
+    if args.tier == "thorough" and not violations and not undecided and not os.environ.get("VERIF_OUT"):
+        # thorough tier: mutation self-test of this property's Verus units -- every listed property-breaking
+        # edit (applied to a scratch copy of the CURRENT tree) must be reported as a violation
+        from . import mutate
+        res = mutate.run("verus", prop=prop, quiet=True)
+        caught = [r[0] for r in res if r[1] == "CAUGHT"]
+        missed = [r[0] for r in res if r[1].startswith("MISSED")]
+        skipped = [r[0] for r in res if r[1].startswith("SKIP")]
+        selftest = {"caught": caught, "missed": missed, "skipped_pattern_not_found": skipped}
+        print("mutation self-test: %d caught, %d missed, %d skipped" % (len(caught), len(missed), len(skipped)))
+        for mname in missed:
+            undecided.append("mutation self-test: edit %s is NOT detected by the current checks" % mname)
+            print("UNDECIDED: property=%s mutation self-test: edit %s is not detected" % (prop, mname))
+    write_evidence(prop, spec, args.tier, seed, vo, ko, violations, known_hits, undecided, time.time() - t0, selftest)
     if violations:
         return 1
     if undecided:
@@ -343,7 +357,7 @@ def summary(vo, ko):
     return "; ".join(parts)
 
 
-def write_evidence(prop, spec, tier, seed, vo, ko, violations, known_hits, undecided, wall):
+def write_evidence(prop, spec, tier, seed, vo, ko, violations, known_hits, undecided, wall, selftest=None):
     os.makedirs(EVID, exist_ok=True)
     meta = getattr(spec, "META", {})
     cov = {}
@@ -404,6 +418,8 @@ def write_evidence(prop, spec, tier, seed, vo, ko, violations, known_hits, undec
         "explanation": meta.get("explanation", ""),
         "repo_head": repo_head(),
     })
+    if selftest is not None:
+        cov["mutation_selftest"] = selftest
     level = getattr(spec, "LEVEL", "proof")
     if level != "proof":
         # fully bounded property: exploration-style keys as well
